@@ -247,6 +247,10 @@ def run(pid, tier, out):
                 if n_b:
                     corr_error = (corr_error or '') + ' query decoding: Model/DecodeQC.v disagrees with list_allocation_candidates on %d of ' \
                         '%d query strings: %s' % (n_b, n_c, ' '.join(first.split())[:600])
+                    for bc in dstats.get('bad_cases', [])[:2]:
+                        out.violation({'kind': 'query-acceptance', 'version': bc['version'], 'query': bc['query'], 'answer': bc['answer']},
+                                      'GET /allocation_candidates?%s at 1.%d is %s; Model/DecodeQC.v (the rules of that version) says '
+                                      'otherwise or decodes it differently' % (bc['query'][:200], bc['version'], bc['answer']))
             except Exception as exc:      # noqa
                 corr_error = (corr_error or '') + ' query decoding stream: %s' % str(exc)[-500:]
         else:
